@@ -53,8 +53,12 @@ def joinAfterColon (s : Str) : Str :=
   | [] => []
   | _ :: r => r.filter (· != 58)
 
-/-- `_strip_*_str` as the code is today: `split(':')[1]` -/
+/-- `_strip_*_str`: `split(':', 1)[1]` (since fix 6511c11; before: `split(':')[1]`, see `stripPrefixOld`) -/
 def stripPrefix (ps : List Str) (s : Str) : Str :=
+  if hasPrefix ps s then (afterColon s).getD [] else s
+
+/-- `_strip_*_str` as it was before the repair: `split(':')[1]` cuts the key at its second colon -/
+def stripPrefixOld (ps : List Str) (s : Str) : Str :=
   if hasPrefix ps s then (splitColon1 s).getD [] else s
 
 /-! ### `_get_mass`, `_get_comp` -/
